@@ -12,8 +12,13 @@
 (*    state, fill the batch), batch write, publish, Unlock, RUnlock;       *)
 (*  - SelectUtxos of utxo/utxo.go: per candidate output tryLockKey under   *)
 (*    MutexMem, release of the taken locks when the amount is not reached; *)
-(*  - PlayAndRepost: utxo.Mutex.Lock (waits for the readers, bars new      *)
-(*    ones), the whole play, Unlock.                                       *)
+(*  - PlayAndRepost / Walk: utxo.Mutex.Lock (waits for the readers, bars   *)
+(*    new ones), the whole play / walk, Unlock.  Walk rolls back EVERY     *)
+(*    pending transaction, plays the block and hands the rolled-back ones  *)
+(*    to a goroutine of its own that submits them again (recover): in the  *)
+(*    step model the recovery belongs to the walk's step (nothing else     *)
+(*    runs in a gated run); the one-at-a-time reading (OutcomeOK) lets     *)
+(*    each re-submission take place anywhere after the walk.               *)
 (*                                                                         *)
 (* A process label is the hook site (/repo build tag verif: utxo.VerifYield,*)
 (* state.VerifHook, plus the harness's own "begin" / "verified" / "done")  *)
@@ -33,13 +38,15 @@ CONSTANTS KF_SharedLockRefCountRace,
           Extra,       \* additional hand-picked scenarios (set of sequences of request names)
           GFirst,      \* lock keys of genesis outputs sort before those of other transactions (raw txid order)
           SelDet,      \* selectors visit candidate outputs in one fixed order (generation) / any order (MC)
-          LogOn        \* record the schedule in hist (off for liveness checking, which cannot use a VIEW)
+          LogOn,       \* record the schedule in hist (off for liveness checking, which cannot use a VIEW)
+          RecSteps     \* TRUE (model checking): the recovery of a walk is a sequence of submissions of its own, step by step
+                       \* beside the other requests; FALSE (generation, gated runs): it belongs to the walk's step
 
 None == "none"
 NoRd == "-"
 Keys == {"k1", "k2", "k3"}
 KeySeq == <<"k1", "k2", "k3">>
-Addrs == <<"a", "b", "c", "m">>
+Addrs == <<"a", "b", "c", "m", "x">>          \* x: a contract ACCOUNT (rule: key a alone), created by a real $acl transaction in block 1
 NoKV == [k \in Keys |-> NoRd]
 
 (* ---- transaction catalogue (exported to the Go concretiser by Gen_SpinLock) ------------------- *)
@@ -53,6 +60,7 @@ TX == [
   t3  |-> Tok({<<"g", 0>>}, <<Out("c", 10)>>),                           \* same output as t1
   t4  |-> Tok({<<"t0", 1>>}, <<Out("c", 4)>>),                           \* independent of t1 / t3
   t8  |-> Tok({<<"g", 0>>, <<"t0", 1>>}, <<Out("c", 14)>>),              \* two inputs: partial-lock patterns
+  ta  |-> Tok({<<"g", 2>>}, <<Out("c", 3)>>),                            \* spends the output owned by the account x (signed by a for x: verified through the ACL manager)
   p1  |-> KV("k1" :> None, "k1" :> "v1"),                              \* prelude of family kv: creates k1
   p2  |-> KV("k1" :> "p1", "k1" :> "v2"),                              \* writer of k1
   p3  |-> KV("k1" :> "p1", "k1" :> "v3"),                              \* second writer of the same version
@@ -63,12 +71,13 @@ TX == [
   p9  |-> KV(("k1" :> "p1") @@ ("k2" :> None), "k1" :> "v9"),          \* writes k1, shares k2 (write skew with p8)
   p10 |-> KV(("k1" :> "p1") @@ ("k2" :> None) @@ ("k3" :> None), "k3" :> "x1")   \* three keys: S, S, X
 ]
-GenesisOuts == <<Out("a", 10), Out("b", 6)>>
-GenesisTotal == 16
+GenesisOuts == <<Out("a", 10), Out("b", 6), Out("x", 3)>>
+GenesisTotal == 19
 Award == 1
-OutsOf(t) == IF t = "g" THEN GenesisOuts ELSE IF t = "aw2" THEN <<Out("m", Award)>> ELSE TX[t].outs
+(* aw1: award of block 1 (the block that creates the account x; the requests start on it), aw2: award of the peer block 2 *)
+OutsOf(t) == IF t = "g" THEN GenesisOuts ELSE IF t \in {"aw1", "aw2"} THEN <<Out("m", Award)>> ELSE TX[t].outs
 OutIds(t) == {<<t, i - 1>> : i \in DOMAIN OutsOf(t)}
-AllOuts == UNION {OutIds(t) : t \in DOMAIN TX \cup {"g", "aw2"}}
+AllOuts == UNION {OutIds(t) : t \in DOMAIN TX \cup {"g", "aw1", "aw2"}}
 Owner(u) == OutsOf(u[1])[u[2] + 1].to
 Amt(u) == OutsOf(u[1])[u[2] + 1].amt
 SumAmt(S) == FoldSet(LAMBDA u, acc : acc + Amt(u), 0, S)
@@ -77,36 +86,55 @@ SumAmt(S) == FoldSet(LAMBDA u, acc : acc + Amt(u), 0, S)
 DoReq(t) == [ty |-> "dotx", t |-> t, a |-> "-", need |-> 0, lk |-> FALSE, b |-> <<>>]
 SelReq(a, need, lk) == [ty |-> "sel", t |-> "-", a |-> a, need |-> need, lk |-> lk, b |-> <<>>]
 PlayReq(b) == [ty |-> "play", t |-> "-", a |-> "-", need |-> 0, lk |-> FALSE, b |-> b]
+WalkReq(b) == [ty |-> "walk", t |-> "-", a |-> "-", need |-> 0, lk |-> FALSE, b |-> b]
+(* the peer block 2 of a family = [award] \o BlockOf[family] on block 1. kv: the block confirms the prelude p1 and
+   brings p7, a CONTRACT INVOCATION the node has (usually) not seen; tok: it brings ta, the spend of an
+   ACCOUNT-OWNED output: play / walk verify them under the exclusive lock through the real contract and ACL managers
+   (which read the confirmed tip) *)
+BlockOf == [kv |-> <<"p1", "p7">>, tok |-> <<"t3", "ta">>]
 ReqDef == [t \in DOMAIN TX |-> DoReq(t)] @@
   [ sa10 |-> SelReq("a", 10, TRUE),        \* a owns 10 + 2 + 4
     sa4  |-> SelReq("a", 4, TRUE),
     sa16 |-> SelReq("a", 16, TRUE),
     sn4  |-> SelReq("a", 4, FALSE),        \* without locking: skips locked outputs
-    play3 |-> PlayReq(<<"t3">>) ]          \* peer block 2 = [award, t3] on the root block
-Fam == [kv |-> [pre |-> <<"p1">>], tok |-> [pre |-> <<"t0">>]]
-KvPoolFull  == <<"p2", "p3", "p5", "p6", "p7", "p8", "p9", "p10">>
-TokPoolFull == <<"t1", "t2", "t3", "t4", "t8", "sa10", "sa4", "sa16", "sn4", "play3">>
-KvPoolSmall  == <<"p2", "p3", "p5", "p6", "p8", "p9">>
-TokPoolSmall == <<"t1", "t2", "t3", "t8", "sa10", "sa4", "play3">>
+    play3 |-> PlayReq(BlockOf.tok),        \* peer block 2 = [award, t3, ta] on block 1
+    walk3 |-> WalkReq(BlockOf.tok),        \* State.Walk to that block
+    playk |-> PlayReq(BlockOf.kv),         \* peer block 2 = [award, p1, p7]
+    walkk |-> WalkReq(BlockOf.kv) ]
+Fam == [kv |-> [pre |-> <<"p1">>, blk |-> BlockOf.kv], tok |-> [pre |-> <<"t0">>, blk |-> BlockOf.tok]]
+KvPoolFull  == <<"p2", "p3", "p5", "p6", "p7", "p8", "p9", "p10", "playk", "walkk">>
+TokPoolFull == <<"t1", "t2", "t3", "t4", "t8", "ta", "sa10", "sa4", "sa16", "sn4", "play3", "walk3">>
+KvPoolSmall  == <<"p2", "p3", "p5", "p6", "p8", "p9", "playk", "walkk">>
+TokPoolSmall == <<"t1", "t2", "t3", "t8", "sa10", "sa4", "play3", "walk3">>
+(* scenarios of four requests: without walks (hand-picked ones with a walk: FourProc) *)
+KvPool4  == <<"p2", "p3", "p5", "p6", "p8", "p9">>
+TokPool4 == <<"t1", "t2", "t3", "t8", "sa10", "sa4", "play3">>
 KvNames == Range(KvPoolFull)
 FamOf(scn) == IF scn[1] \in KvNames THEN "kv" ELSE "tok"
-(* all multisets (non-decreasing index sequences) of n requests of one pool, at most one play *)
+(* all multisets (non-decreasing index sequences) of n requests of one pool, at most one play or walk *)
 Multisets(pool, n) ==
   {[i \in 1..n |-> pool[f[i]]] : f \in {g \in [1..n -> 1..Len(pool)] : \A i \in 1..(n - 1) : g[i] <= g[i + 1]}}
-OnePlay(scn) == Cardinality({i \in DOMAIN scn : ReqDef[scn[i]].ty = "play"}) <= 1
+Excl(r) == r.ty \in {"play", "walk"}
+OnePlay(scn) == Cardinality({i \in DOMAIN scn : Excl(ReqDef[scn[i]])}) <= 1
 Scenarios == {s \in UNION {Multisets(KvPool, n) \cup Multisets(TokPool, n) : n \in Sizes} : OnePlay(s)} \cup Extra
 NoExtra == {}
 Race3 == {<<"p2", "p5", "p6">>}
 Race4 == {<<"p2", "p3", "p5", "p6">>}
-Three == {<<"p2", "p5", "p6">>, <<"p2", "p8", "p9">>, <<"p3", "p5", "p10">>, <<"t1", "t3", "t8">>, <<"t1", "t2", "play3">>, <<"t3", "t8", "sa10">>, <<"sa10", "sa4", "sa16">>}
+Three == {<<"p2", "p5", "p6">>, <<"p2", "p8", "p9">>, <<"p3", "p5", "p10">>, <<"t1", "t3", "t8">>, <<"t1", "t2", "play3">>, <<"t3", "t8", "sa10">>, <<"sa10", "sa4", "sa16">>,
+          <<"p2", "p8", "p10">>,          \* p8 is refused at its second key while it shares the first with p10: a partial lock is handed back
+          <<"t1", "t4", "walk3">>, <<"p5", "p8", "walkk">>}
 FourProc == {<<"p2", "p3", "p5", "p6">>, <<"p2", "p5", "p8", "p9">>, <<"p5", "p6", "p8", "p10">>, <<"p2", "p7", "p8", "p9">>,
              <<"t1", "t2", "t3", "sa10">>, <<"t1", "t8", "sa4", "play3">>, <<"t3", "sa10", "sa16", "play3">>,
-             <<"t1", "t3", "t4", "t8">>, <<"sa10", "sa4", "sa16", "sn4">>}
+             <<"t1", "t3", "t4", "t8">>, <<"sa10", "sa4", "sa16", "sn4">>,
+             <<"t1", "t8", "sa4", "walk3">>, <<"p2", "p5", "p8", "playk">>, <<"p3", "p7", "p9", "walkk">>}
+(* model checking only (two exclusive requests are not replayed gated: the walk's recovery would run beside the play) *)
+TwoExcl == {<<"t1", "play3", "walk3">>, <<"p5", "playk", "walkk">>, <<"t1", "t2", "play3", "walk3">>}
+FourProcTwoExcl == FourProc \cup TwoExcl
 
 (* ---- lock keys: ExtractLockKeys ------------------------------------------------------------------ *)
 (* inputs and own outputs exclusive; keys only read shared; keys written exclusive; sorted by the raw  *)
 (* key string (the concretiser signs until the raw txids are ordered like the ranks below)             *)
-TxRank == [g |-> IF GFirst THEN 0 ELSE 90, t0 |-> 1, t1 |-> 2, t2 |-> 3, t3 |-> 4, t4 |-> 5, t8 |-> 6]
+TxRank == [g |-> IF GFirst THEN 0 ELSE 90, t0 |-> 1, t1 |-> 2, t2 |-> 3, t3 |-> 4, t4 |-> 5, t8 |-> 6, ta |-> 7]
 KeyIdx == [k1 |-> 1, k2 |-> 2, k3 |-> 3]
 UKey(u) == [k |-> u[1] \o "_" \o ToString(u[2]), m |-> "X", r |-> TxRank[u[1]] * 10 + u[2]]
 LockSet(t) ==
@@ -118,7 +146,7 @@ LockNames == UNION {{x.k : x \in LockSet(t)} : t \in DOMAIN TX}
 LockConflict(t, u) == \E x \in LockSet(t), y \in LockSet(u) : x.k = y.k /\ (x.m = "X" \/ y.m = "X")
 
 (* ---- one-at-a-time semantics (what a serial execution does; cf. XState.tla Valid / Apply / Play) -- *)
-S0 == [utxo |-> OutIds("g"), ver |-> [k \in Keys |-> None], pool |-> {}, total |-> GenesisTotal, ptr |-> 1]
+S0 == [utxo |-> OutIds("g") \cup OutIds("aw1"), ver |-> [k \in Keys |-> None], pool |-> {}, total |-> GenesisTotal + Award, ptr |-> 1]
 TokenOK(s, t) == TX[t].ins \subseteq s.utxo
 ReadsOKW(s, t, waived) == \A k \in Keys : TX[t].reads[k] # NoRd => (s.ver[k] = TX[t].reads[k] \/ k \in waived)
 ReadsOK(s, t) == ReadsOKW(s, t, {})
@@ -142,23 +170,49 @@ UndoOrder(S) ==
            [rest |-> S, seq |-> <<>>], Idx(Cardinality(S))).seq
 UndoSet(s, S) == FoldLeft(LAMBDA acc, t : Unapply(acc, t), s, UndoOrder(S))
 Closure(s, S) == FoldLeft(LAMBDA acc, i : acc \cup {t \in s.pool : \E u \in acc : DependsOn(t, u)}, S, Idx(Cardinality(s.pool)))
-(* PlayAndRepost of block 2 = [award, bt] on the root: pending transactions that spend an input of the block are
-   undone together with their descendants (the selection locks of the outputs they had spent are released: the
-   outputs are free again), block transactions that are pending are confirmed, the others applied *)
+(* PlayAndRepost of block 2 = [award, bt] on the root (processUnconfirmTxs): a pending transaction that is not in the
+   block is undone together with its descendants when it spends an input of the block, or when it reads or writes
+   a key the block writes in another version than the block's last writer of the key - unless that writer is
+   itself pending here. (The selection locks of the outputs the undone transactions had spent are released: the
+   outputs are free again.) Block transactions that are pending are confirmed without a second verification,
+   the others verified and applied. *)
+LastWriter(bt, k) == LET W == {i \in DOMAIN bt : TX[bt[i]].writes[k] # NoRd} IN IF W = {} THEN None ELSE bt[Max(W)]
+KeyConflict(s, u, bt) == \E k \in Keys : LET w == LastWriter(bt, k) IN
+                            /\ w # None /\ w \notin s.pool
+                            /\ (TX[u].writes[k] # NoRd \/ (TX[u].reads[k] # NoRd /\ TX[u].reads[k] # w))
+ApplyBlock(s, bt, skip) ==
+  FoldLeft(LAMBDA acc, t : IF ~acc.ok \/ t \in skip THEN acc
+                           ELSE IF Valid(acc.s, t) THEN [ok |-> TRUE, s |-> Write(acc.s, t)]
+                           ELSE [ok |-> FALSE, s |-> acc.s],
+           [ok |-> TRUE, s |-> s], bt)
+Tip2(s) == [s EXCEPT !.utxo = @ \cup OutIds("aw2"), !.total = @ + Award, !.ptr = 2]
 PlaySeq(s, bt) ==
   IF s.ptr # 1 THEN [ok |-> FALSE, s |-> s, rel |-> {}]
   ELSE LET inb == Range(bt)
            bins == UNION {TX[t].ins : t \in inb}
-           undone == Closure(s, {u \in s.pool \ inb : TX[u].ins \cap bins # {}})
+           undone == Closure(s, {u \in s.pool \ inb : TX[u].ins \cap bins # {} \/ KeyConflict(s, u, bt)})
            keep == s.pool \cap inb
-           base == UndoSet(s, undone)
-           r == FoldLeft(LAMBDA acc, t : IF ~acc.ok \/ t \in keep THEN acc
-                                         ELSE IF Valid(acc.s, t) THEN [ok |-> TRUE, s |-> Write(acc.s, t)]
-                                         ELSE [ok |-> FALSE, s |-> acc.s],
-                         [ok |-> TRUE, s |-> base], bt) IN
+           r == ApplyBlock(UndoSet(s, undone), bt, keep) IN
        IF ~r.ok THEN [ok |-> FALSE, s |-> s, rel |-> {}]
-       ELSE [ok |-> TRUE, s |-> [r.s EXCEPT !.utxo = @ \cup OutIds("aw2"), !.total = @ + Award, !.ptr = 2, !.pool = @ \ keep],
+       ELSE [ok |-> TRUE, s |-> [Tip2(r.s) EXCEPT !.pool = @ \ keep],
              rel |-> UNION {TX[u].ins : u \in undone}]       \* undoTxInternal: UnlockKey of every restored input
+(* Walk to block 2: EVERY pending transaction is rolled back (and its inputs' selection locks released), the block
+   is played on the bare confirmed state (nothing when the node is at block 2 already); a walk that fails has lost
+   the pool. rec: the rolled-back transactions that are not in the block (not "in trunk") are handed to the recover
+   goroutine, which submits each of them again (verification, doTxSync), producers before consumers, otherwise in
+   no particular order (map iteration). *)
+WalkCore(s, bt) ==
+  LET base == UndoSet(s, s.pool)
+      rel == UNION {TX[u].ins : u \in s.pool}
+      r == IF s.ptr # 1 THEN [ok |-> TRUE, s |-> base]
+           ELSE LET b == ApplyBlock(base, bt, {}) IN IF b.ok THEN [ok |-> TRUE, s |-> Tip2(b.s)] ELSE [ok |-> FALSE, s |-> base] IN
+  [ok |-> r.ok, s |-> r.s, mid |-> base, rel |-> rel, rec |-> IF r.ok THEN s.pool \ Range(bt) ELSE {}]
+ReadyRec(R) == {t \in R : \A u \in R \ {t} : ~DependsOn(t, u)}
+Resubmit(s, t) == IF t \notin s.pool /\ Valid(s, t) THEN Apply(s, t) ELSE s
+(* the states in which the recovery of R can end when nothing else happens meanwhile *)
+RECURSIVE RecAll(_, _)
+RecAll(s, R) == IF R = {} THEN {s} ELSE UNION {RecAll(Resubmit(s, t), R \ {t}) : t \in ReadyRec(R)}
+WalkOutcomes(s, bt) == LET c == WalkCore(s, bt) IN {[ok |-> c.ok, s |-> f, rel |-> c.rel] : f \in RecAll(c.s, c.rec)}
 
 (* ---- the step model ------------------------------------------------------------------------------ *)
 VARIABLES sc,      \* the scenario: process p executes request sc[p]
@@ -172,11 +226,12 @@ VARIABLES sc,      \* the scenario: process p executes request sc[p]
           db,      \* the stored state incl. the published pool (UnconfirmTxInMem)
           res,     \* process -> [c |-> result class, outs |-> selected outputs]
           released, \* outputs whose selection lock was released by an undo (history)
+          rec,     \* walk process -> [todo: rolled-back transactions still to be re-submitted, cur: the one in work]
           hist
-vars == <<sc, pc, ki, held, lm, ref, rwR, rwWait, sel, scan, db, res, released, hist>>
+vars == <<sc, pc, ki, held, lm, ref, rwR, rwWait, sel, scan, db, res, released, rec, hist>>
 Procs == DOMAIN sc
 Req(p) == ReqDef[sc[p]]
-T(p) == Req(p).t
+T(p) == IF Req(p).ty = "walk" THEN rec[p].cur ELSE Req(p).t
 NK(p) == Len(LK[T(p)])
 NoRes == [c |-> "-", outs |-> {}]
 
@@ -190,28 +245,32 @@ InitFor(scn) ==
   /\ db = Start(FamOf(scn))
   /\ res = [p \in DOMAIN scn |-> NoRes]
   /\ released = {}
+  /\ rec = [p \in DOMAIN scn |-> [todo |-> {}, cur |-> "-"]]
   /\ hist = <<>>
 Init == \E scn \in Scenarios : InitFor(scn)
 
 Goto(p, l) == pc' = [pc EXCEPT ![p] = l]
-SetRes(p, c) == res' = [res EXCEPT ![p] = [c |-> c, outs |-> {}]]
+(* the recovery of a walk answers nobody: the walk's own result stays *)
+SetRes(p, c) == res' = [res EXCEPT ![p] = IF Req(p).ty = "walk" /\ c \notin {"ok", "fail"} THEN @ ELSE [c |-> c, outs |-> {}]]
+(* where a submission ends: the request returns - or the recovery turns to the next rolled-back transaction *)
+Ret(p) == IF Req(p).ty = "walk" /\ rec[p].todo # {} THEN "rec_next" ELSE "done"
 Two == KF_SharedLockRefCountRace
 
 (* VerifyTx (outside every lock): the versions a contract transaction read must be the stored ones *)
 Verify(p) ==
-  /\ pc[p] = "begin" /\ Req(p).ty = "dotx"
+  /\ (pc[p] = "begin" /\ Req(p).ty = "dotx") \/ (pc[p] = "rec_verify" /\ Req(p).ty = "walk")
   /\ IF ReadsOK(db, T(p)) THEN Goto(p, "verified") /\ UNCHANGED res
-     ELSE Goto(p, "done") /\ SetRes(p, "stale")
-  /\ UNCHANGED <<sc, ki, held, lm, ref, rwR, rwWait, sel, scan, db, released>>
+     ELSE Goto(p, Ret(p)) /\ SetRes(p, "stale")
+  /\ UNCHANGED <<sc, rec, ki, held, lm, ref, rwR, rwWait, sel, scan, db, released>>
 (* DoTx: RLock (not granted while a writer holds or waits for the mutex), ExtractLockKeys *)
 AcquireR(p) ==
   /\ pc[p] = "verified" /\ rwWait = {}
   /\ rwR' = rwR \cup {p} /\ Goto(p, "dotx_before_trylock")
-  /\ UNCHANGED <<sc, ki, held, lm, ref, rwWait, sel, scan, db, res, released>>
+  /\ UNCHANGED <<sc, rec, ki, held, lm, ref, rwWait, sel, scan, db, res, released>>
 EnterTryLock(p) ==
   /\ pc[p] = "dotx_before_trylock"
   /\ IF NK(p) = 0 THEN Goto(p, "dotx_locked") /\ UNCHANGED ki ELSE Goto(p, "trylock_key") /\ ki' = [ki EXCEPT ![p] = 1]
-  /\ UNCHANGED <<sc, held, lm, ref, rwR, rwWait, sel, scan, db, res, released>>
+  /\ UNCHANGED <<sc, rec, held, lm, ref, rwR, rwWait, sel, scan, db, res, released>>
 (* key i is locked: next key, or TryLock returns true *)
 Advance(p, i, L) ==
   /\ held' = [held EXCEPT ![p] = Append(@, L)]
@@ -231,36 +290,36 @@ TryKey(p) ==
              ELSE ref' = [ref EXCEPT ![L.k] = @ + 1] /\ Advance(p, i, L)
           /\ UNCHANGED <<lm, res>>
      ELSE Goto(p, "dotx_before_unlock") /\ SetRes(p, "busy") /\ UNCHANGED <<lm, ref, held, ki>>   \* TryLock returns false
-  /\ UNCHANGED <<sc, rwR, rwWait, sel, scan, db, released>>
+  /\ UNCHANGED <<sc, rec, rwR, rwWait, sel, scan, db, released>>
 RefAdd(p) ==
   /\ pc[p] \in {"trylock_first_before_add", "trylock_shared_before_add"}
   /\ LET L == LK[T(p)][ki[p]] IN ref' = [ref EXCEPT ![L.k] = @ + 1] /\ Advance(p, ki[p], L)
-  /\ UNCHANGED <<sc, lm, rwR, rwWait, sel, scan, db, res, released>>
+  /\ UNCHANGED <<sc, rec, lm, rwR, rwWait, sel, scan, db, res, released>>
 (* critical section *)
 CheckPool(p) ==
   /\ pc[p] = "dotx_locked"
   /\ IF T(p) \in db.pool THEN Goto(p, "dotx_before_unlock") /\ SetRes(p, "stale") ELSE Goto(p, "dotx_before_apply") /\ UNCHANGED res
-  /\ UNCHANGED <<sc, ki, held, lm, ref, rwR, rwWait, sel, scan, db, released>>
+  /\ UNCHANGED <<sc, rec, ki, held, lm, ref, rwR, rwWait, sel, scan, db, released>>
 VerifyAndApply(p) ==
   /\ pc[p] = "dotx_before_apply"
   /\ IF Valid(db, T(p)) THEN Goto(p, "dotx_before_write") /\ UNCHANGED res ELSE Goto(p, "dotx_before_unlock") /\ SetRes(p, "stale")
-  /\ UNCHANGED <<sc, ki, held, lm, ref, rwR, rwWait, sel, scan, db, released>>
+  /\ UNCHANGED <<sc, rec, ki, held, lm, ref, rwR, rwWait, sel, scan, db, released>>
 BatchWrite(p) ==
   /\ pc[p] = "dotx_before_write"
   /\ db' = Write(db, T(p)) /\ Goto(p, "dotx_after_write")
-  /\ UNCHANGED <<sc, ki, held, lm, ref, rwR, rwWait, sel, scan, res, released>>
+  /\ UNCHANGED <<sc, rec, ki, held, lm, ref, rwR, rwWait, sel, scan, res, released>>
 Publish(p) ==
   /\ pc[p] = "dotx_after_write"
   /\ db' = [db EXCEPT !.pool = @ \cup {T(p)}] /\ SetRes(p, "admit") /\ Goto(p, "dotx_before_unlock")
-  /\ UNCHANGED <<sc, ki, held, lm, ref, rwR, rwWait, sel, scan, released>>
+  /\ UNCHANGED <<sc, rec, ki, held, lm, ref, rwR, rwWait, sel, scan, released>>
 (* Unlock (reverse order), then RUnlock and return *)
-Finish(p) == Goto(p, "done") /\ rwR' = rwR \ {p}
+Finish(p) == Goto(p, Ret(p)) /\ rwR' = rwR \ {p}
 NextU(p, j) == IF j > 1 THEN Goto(p, "unlock_key") /\ ki' = [ki EXCEPT ![p] = j - 1] /\ UNCHANGED rwR ELSE Finish(p) /\ UNCHANGED ki
 EnterUnlock(p) ==
   /\ pc[p] = "dotx_before_unlock"
   /\ IF held[p] = <<>> THEN Finish(p) /\ UNCHANGED ki
      ELSE Goto(p, "unlock_key") /\ ki' = [ki EXCEPT ![p] = Len(held[p])] /\ UNCHANGED rwR
-  /\ UNCHANGED <<sc, held, lm, ref, rwWait, sel, scan, db, res, released>>
+  /\ UNCHANGED <<sc, rec, held, lm, ref, rwWait, sel, scan, db, res, released>>
 UnlockKey(p) ==
   /\ pc[p] = "unlock_key"
   /\ LET j == ki[p]
@@ -270,11 +329,11 @@ UnlockKey(p) ==
           /\ IF ref[L.k] - 1 # 0 THEN UNCHANGED lm /\ NextU(p, j)
              ELSE IF Two THEN Goto(p, "unlock_shared_before_delete") /\ UNCHANGED <<lm, ki, rwR>>
              ELSE lm' = [lm EXCEPT ![L.k] = None] /\ NextU(p, j)
-  /\ UNCHANGED <<sc, held, rwWait, sel, scan, db, res, released>>
+  /\ UNCHANGED <<sc, rec, held, rwWait, sel, scan, db, res, released>>
 DeleteKey(p) ==
   /\ pc[p] = "unlock_shared_before_delete"
   /\ LET L == held[p][ki[p]] IN lm' = [lm EXCEPT ![L.k] = None] /\ NextU(p, ki[p])
-  /\ UNCHANGED <<sc, held, ref, rwWait, sel, scan, db, res, released>>
+  /\ UNCHANGED <<sc, rec, held, ref, rwWait, sel, scan, db, res, released>>
 
 (* SelectUtxos: one candidate output per step (tryLockKey / isLocked under MutexMem) *)
 Cand(p) == {u \in db.utxo : Owner(u) = Req(p).a} \ scan[p].vis
@@ -293,33 +352,50 @@ SelScan(p) ==
                /\ IF scan[p].acc + Amt(u) >= Req(p).need
                   THEN Goto(p, "done") /\ res' = [res EXCEPT ![p] = [c |-> "ok", outs |-> scan[p].got \cup {u}]]
                   ELSE Goto(p, "sel_scan") /\ UNCHANGED res
-  /\ UNCHANGED <<sc, ki, held, lm, ref, rwR, rwWait, db, released>>
+  /\ UNCHANGED <<sc, rec, ki, held, lm, ref, rwR, rwWait, db, released>>
 SelUnlock(p) ==
   /\ pc[p] = "sel_unlock"
   /\ LET u == First(scan[p].got) IN
      /\ sel' = [sel EXCEPT ![u] = 0] /\ scan' = [scan EXCEPT ![p].got = @ \ {u}]
      /\ IF scan[p].got = {u} THEN Goto(p, "done") /\ SetRes(p, "nomoney") ELSE UNCHANGED <<pc, res>>
-  /\ UNCHANGED <<sc, ki, held, lm, ref, rwR, rwWait, db, released>>
+  /\ UNCHANGED <<sc, rec, ki, held, lm, ref, rwR, rwWait, db, released>>
 
-(* PlayAndRepost: Lock() waits until the readers have left and bars new readers meanwhile; the play itself has
-   no yield point (one step) *)
-DoPlay(p) == LET r == PlaySeq(db, Req(p).b) IN
-             /\ db' = r.s /\ SetRes(p, IF r.ok THEN "ok" ELSE "fail") /\ Goto(p, "done")
-             /\ sel' = [u \in AllOuts |-> IF u \in r.rel THEN 0 ELSE sel[u]]
-             /\ released' = released \cup r.rel
+(* PlayAndRepost / Walk: Lock() waits until the readers have left and bars new readers meanwhile; the play (the walk
+   and its recovery) has no yield point (one step) *)
+DoExcl(p) ==
+  IF Req(p).ty = "walk" /\ RecSteps
+  THEN LET c == WalkCore(db, Req(p).b) IN
+       /\ db' = c.s /\ SetRes(p, IF c.ok THEN "ok" ELSE "fail")
+       /\ rec' = [rec EXCEPT ![p] = [todo |-> c.rec, cur |-> "-"]]
+       /\ Goto(p, IF c.rec = {} THEN "done" ELSE "rec_next")
+       /\ sel' = [u \in AllOuts |-> IF u \in c.rel THEN 0 ELSE sel[u]]
+       /\ released' = released \cup c.rel
+  ELSE \E r \in (IF Req(p).ty = "play" THEN {PlaySeq(db, Req(p).b)} ELSE WalkOutcomes(db, Req(p).b)) :
+       /\ db' = r.s /\ SetRes(p, IF r.ok THEN "ok" ELSE "fail") /\ Goto(p, "done")
+       /\ sel' = [u \in AllOuts |-> IF u \in r.rel THEN 0 ELSE sel[u]]
+       /\ released' = released \cup r.rel
+       /\ UNCHANGED rec
+(* the recovery goroutine takes the next rolled-back transaction whose producers have had their turn (a transaction
+   that is confirmed meanwhile is skipped by the pool / validity checks of the submission itself) *)
+RecNext(p) ==
+  /\ pc[p] = "rec_next"
+  /\ \E t \in ReadyRec(rec[p].todo) : rec' = [rec EXCEPT ![p] = [todo |-> @.todo \ {t}, cur |-> t]]
+  /\ Goto(p, "rec_verify")
+  /\ ki' = [ki EXCEPT ![p] = 0] /\ held' = [held EXCEPT ![p] = <<>>]
+  /\ UNCHANGED <<sc, lm, ref, rwR, rwWait, sel, scan, db, res, released>>
 PlayBegin(p) ==
-  /\ pc[p] = "begin" /\ Req(p).ty = "play"
-  /\ IF rwR = {} /\ rwWait = {} THEN DoPlay(p) /\ UNCHANGED rwWait
-     ELSE rwWait' = rwWait \cup {p} /\ Goto(p, "wlock") /\ UNCHANGED <<db, res, sel, released>>
+  /\ pc[p] = "begin" /\ Excl(Req(p))
+  /\ IF rwR = {} /\ rwWait = {} THEN DoExcl(p) /\ UNCHANGED rwWait
+     ELSE rwWait' = rwWait \cup {p} /\ Goto(p, "wlock") /\ UNCHANGED <<db, res, sel, released, rec>>
   /\ UNCHANGED <<sc, ki, held, lm, ref, rwR, scan>>
 WAcquire(p) ==
   /\ pc[p] = "wlock" /\ rwR = {}
-  /\ DoPlay(p) /\ rwWait' = rwWait \ {p}
+  /\ DoExcl(p) /\ rwWait' = rwWait \ {p}
   /\ UNCHANGED <<sc, ki, held, lm, ref, rwR, scan>>
 
 Step(p) == \/ Verify(p) \/ AcquireR(p) \/ EnterTryLock(p) \/ TryKey(p) \/ RefAdd(p) \/ CheckPool(p) \/ VerifyAndApply(p)
            \/ BatchWrite(p) \/ Publish(p) \/ EnterUnlock(p) \/ UnlockKey(p) \/ DeleteKey(p)
-           \/ SelScan(p) \/ SelUnlock(p) \/ PlayBegin(p) \/ WAcquire(p)
+           \/ SelScan(p) \/ SelUnlock(p) \/ PlayBegin(p) \/ WAcquire(p) \/ RecNext(p)
 (* the key a parked process is about to work on (part of the label) *)
 KeyAt(p) == IF pc[p] \in {"trylock_key", "trylock_first_before_add", "trylock_shared_before_add"} THEN LK[T(p)][ki[p]].k
             ELSE IF pc[p] \in {"unlock_key", "unlock_shared_before_delete"} THEN held[p][ki[p]].k ELSE ""
@@ -345,12 +421,27 @@ Writers(scn, k) == {p \in DOMAIN scn : ReqDef[scn[p]].ty = "dotx" /\ \E x \in Lo
 RaceKeys(scn) == {k \in Keys : Cardinality(Sharers(scn, k)) >= 2 /\ Writers(scn, k) # {}}
 
 (* The outcome (R: process -> [c, outs], O: final observables) equals the result of SOME one-at-a-time order:
-   the requests with an effect (admitted transactions, successful plays) applied in some order give exactly O;
-   every refused request is refused in at least one of the states on the way (it has no effect, so it can be
-   placed there).  Weaker reading (R6) for the try-lock: a transaction may be refused as "busy" (ErrDoubleSpent
+   the requests with an effect (admitted transactions, successful plays and walks) applied in some order give
+   exactly O; every refused request is refused in at least one of the states on the way (it has no effect, so it can
+   be placed there).  Weaker reading (R6) for the try-lock: a transaction may be refused as "busy" (ErrDoubleSpent
    from TryLock) whenever another request of the run asks for a conflicting lock key, and a selection may fail
    or skip outputs while another selector of the same address is in flight (its locks are released again).
+   A walk is, one at a time, its exclusive part (roll back the pool, play the block) followed by one re-submission
+   per rolled-back transaction; the re-submissions are requests of their own (the code hands them to a goroutine
+   and returns): each takes place somewhere after the walk, producers before consumers, and re-admits the
+   transaction if it is (still) valid there - or drops it, which under contention for its lock keys may also happen
+   to a valid one (R6).  The state between roll-back and block is a state on the way as well (a verification outside
+   the locks may see it).  "hang" and "panic" are explained by nothing.
    waived: keys whose version check is not demanded (known deviation only). *)
+LastOf(q) == q[Len(q)]
+(* configurations of the one-at-a-time machine with walks: [sts: states on the way, rec: transactions awaiting re-submission] *)
+ResubCfg(c, t, Cont) ==
+  LET s == LastOf(c.sts)
+      adm == IF t \notin s.pool /\ Valid(s, t) THEN {Apply(s, t)} ELSE {}
+      drop == IF adm = {} \/ t \in Cont THEN {s} ELSE {} IN
+  {[sts |-> Append(c.sts, s2), rec |-> c.rec \ {t}] : s2 \in adm \cup drop}
+RECURSIVE RecClose(_, _)
+RecClose(c, Cont) == {c} \cup UNION {UNION {RecClose(c2, Cont) : c2 \in ResubCfg(c, t, Cont)} : t \in ReadyRec(c.rec)}
 OutcomeOK(scn, R, O, waived) ==
   LET P == DOMAIN scn
       rq(p) == ReqDef[scn[p]]
@@ -359,10 +450,11 @@ OutcomeOK(scn, R, O, waived) ==
          second "admit" is then accepted like the refusal as a duplicate (the effect is the same: pending once) *)
       dupAdmit(p) == /\ rq(p).ty = "dotx" /\ R[p].c = "admit" /\ \A x \in LockSet(rq(p).t) : x.m = "S"
                      /\ \E q \in P : q < p /\ scn[q] = scn[p] /\ R[q].c = "admit"
-      Eff == {p \in P : (rq(p).ty = "dotx" /\ R[p].c = "admit" /\ ~dupAdmit(p)) \/ (rq(p).ty = "play" /\ R[p].c = "ok")}
+      Eff == {p \in P : (rq(p).ty = "dotx" /\ R[p].c = "admit" /\ ~dupAdmit(p)) \/ (Excl(rq(p)) /\ R[p].c = "ok")}
+      hasWalk == \E p \in P : rq(p).ty = "walk"
+      dotxOK(s, p) == rq(p).t \notin s.pool /\ TokenOK(s, rq(p).t) /\ ReadsOKW(s, rq(p).t, waived)
       exec(s, p) == IF rq(p).ty = "play" THEN PlaySeq(s, rq(p).b)
-                    ELSE IF rq(p).t \notin s.pool /\ TokenOK(s, rq(p).t) /\ ReadsOKW(s, rq(p).t, waived)
-                         THEN [ok |-> TRUE, s |-> Apply(s, rq(p).t)] ELSE [ok |-> FALSE, s |-> s]
+                    ELSE IF dotxOK(s, p) THEN [ok |-> TRUE, s |-> Apply(s, rq(p).t)] ELSE [ok |-> FALSE, s |-> s]
       run(pi) == FoldLeft(LAMBDA acc, p : IF ~acc.ok THEN acc
                                           ELSE LET r == exec(acc.sts[Len(acc.sts)], p) IN
                                                IF r.ok THEN [ok |-> TRUE, sts |-> Append(acc.sts, r.s)] ELSE [acc EXCEPT !.ok = FALSE],
@@ -371,12 +463,18 @@ OutcomeOK(scn, R, O, waived) ==
         CASE R[p].c \in {"hang", "panic", "-"} -> FALSE
           [] R[p].c = "other" -> TRUE
           [] rq(p).ty = "dotx" /\ R[p].c = "stale" -> \E i \in DOMAIN sts : rq(p).t \in sts[i].pool \/ ~Valid(sts[i], rq(p).t)
-          [] rq(p).ty = "dotx" /\ R[p].c = "busy" -> \E q \in P \ {p} : rq(q).ty = "dotx" /\ LockConflict(rq(p).t, rq(q).t)
+          [] rq(p).ty = "dotx" /\ R[p].c = "busy" ->
+               \/ \E q \in P \ {p} : rq(q).ty = "dotx" /\ LockConflict(rq(p).t, rq(q).t)
+               (* the recovery of a walk holds the lock keys of the transaction it is re-submitting: the prelude's too *)
+               \/ hasWalk /\ \E t \in Range(Fam[FamOf(scn)].pre) : LockConflict(rq(p).t, t)
           [] rq(p).ty = "play" /\ R[p].c = "fail" -> \E i \in DOMAIN sts : ~PlaySeq(sts[i], rq(p).b).ok
+          [] rq(p).ty = "walk" /\ R[p].c = "fail" -> \E i \in DOMAIN sts : ~WalkCore(sts[i], rq(p).b).ok
           [] rq(p).ty = "sel" ->
                LET others == {q \in P \ {p} : rq(q).ty = "sel" /\ rq(q).lk /\ rq(q).a = rq(p).a}
-                   (* an undo (play) releases the selection locks of the outputs the undone transaction had spent *)
-                   free == IF \E q \in P : rq(q).ty = "play" THEN UNION {TX[rq(q).t].ins : q \in {q \in P : rq(q).ty = "dotx"}} ELSE {}
+                   (* an undo (play, walk) releases the selection locks of the outputs the undone transaction had spent *)
+                   free == IF \E q \in P : Excl(rq(q))
+                           THEN UNION {TX[t].ins : t \in {rq(q).t : q \in {q \in P : rq(q).ty = "dotx"}} \cup Range(Fam[FamOf(scn)].pre)}
+                           ELSE {}
                    ever == UNION {sts[i].utxo : i \in DOMAIN sts}
                    always == {u \in ever : \A i \in DOMAIN sts : u \in sts[i].utxo} IN
                IF R[p].c = "ok"
@@ -385,11 +483,40 @@ OutcomeOK(scn, R, O, waived) ==
                     /\ \E u \in R[p].outs : SumAmt(R[p].outs) - Amt(u) < rq(p).need
                     /\ rq(p).lk => \A q \in others : R[q].c = "ok" => R[q].outs \cap R[p].outs \subseteq free
                ELSE R[p].c = "nomoney" /\ (others # {} \/ SumAmt({u \in always : Owner(u) = rq(p).a}) < rq(p).need)
-          [] OTHER -> p \in Eff \/ dupAdmit(p) IN
-  \E pi \in PermSeqs(Eff) : \E r \in {run(pi)} :
-     /\ r.ok
-     /\ ObsOfDb(r.sts[Len(r.sts)]) = O
-     /\ \A p \in P : refusedOK(r.sts, p)
+          [] OTHER -> p \in Eff \/ dupAdmit(p)
+      plain == \E pi \in PermSeqs(Eff) : \E r \in {run(pi)} :
+                  /\ r.ok
+                  /\ ObsOfDb(r.sts[Len(r.sts)]) = O
+                  /\ \A p \in P : refusedOK(r.sts, p)
+      (* with a walk among the requests *)
+      Cont == {t \in DOMAIN TX : \E q \in P : rq(q).ty = "dotx" /\ LockConflict(t, rq(q).t)}
+      close(c, atomic) == IF ~atomic THEN RecClose(c, Cont)
+                          ELSE IF c.rec = {} THEN {c}
+                          ELSE {[sts |-> Append(c.sts, f), rec |-> {}] : f \in RecAll(LastOf(c.sts), c.rec)}
+      stepCfg(c, p, atomic) ==
+        LET s == LastOf(c.sts) IN
+        IF rq(p).ty = "walk"
+        THEN LET w == WalkCore(s, rq(p).b) IN
+             IF ~w.ok THEN {} ELSE close([sts |-> c.sts \o <<w.mid, w.s>>, rec |-> c.rec \cup w.rec], atomic)
+        ELSE LET r == exec(s, p) IN IF ~r.ok THEN {} ELSE close([sts |-> Append(c.sts, r.s), rec |-> c.rec], atomic)
+      runW(pi, atomic) == FoldLeft(LAMBDA C, p : UNION {stepCfg(c, p, atomic) : c \in C},
+                                   {[sts |-> <<Start(FamOf(scn))>>, rec |-> {}]}, pi)
+      withWalk(atomic) == \E pi \in PermSeqs(Eff) : \E c \in runW(pi, atomic) :
+                             /\ c.rec = {}
+                             /\ ObsOfDb(LastOf(c.sts)) = O
+                             /\ \A p \in P : refusedOK(c.sts, p) IN
+  IF hasWalk THEN withWalk(TRUE) \/ withWalk(FALSE) ELSE plain
+
+(* selection locks at the end of the run (free: the outputs a selection WITHOUT locking is offered, i.e. the unlocked
+   ones): an output that is still locked has been handed to a successful locking selector of the run (a selection
+   that fails gives back what it took); without any undo (play, walk) what was handed out is still locked *)
+SelLocksOK(scn, R, O, free) ==
+  LET P == DOMAIN scn
+      lockers == {p \in P : ReqDef[scn[p]].ty = "sel" /\ ReqDef[scn[p]].lk /\ R[p].c = "ok"}
+      handed == UNION {R[p].outs : p \in lockers}
+      undo == \E p \in P : Excl(ReqDef[scn[p]]) IN
+  /\ \A u \in O.utxo \ free : u \in handed
+  /\ ~undo => \A u \in O.utxo \cap handed : u \notin free
 
 (* after the run every DoTx request is issued once more, one at a time (State.DoTx directly): none may be refused
    for a lock (a lock that was not released), each behaves as on the final state *)
@@ -429,12 +556,12 @@ RaceWindowKeys(scn, steps) ==
 
 (* ---- invariants ------------------------------------------------------------------------------------ *)
 CSSites == {"dotx_locked", "dotx_before_apply", "dotx_before_write", "dotx_after_write", "dotx_before_unlock"}
-InCS(p) == pc[p] \in CSSites /\ res[p].c # "busy"
+InCS(p) == pc[p] \in CSSites /\ Len(held[p]) = NK(p)          \* holds all its keys (a refused TryLock holds a proper prefix)
 (* shared / exclusive exclusion per key while in the critical section *)
 Exclusion == \A p, q \in Procs : (p # q /\ InCS(p) /\ InCS(q)) => ~LockConflict(T(p), T(q))
 (* the admitted set is conflict-free: no two admitted transactions spend the same output or supersede the same
    key version (C03) *)
-Admitted == db.pool \cup (IF db.ptr = 2 THEN {"t3"} ELSE {})
+Admitted == db.pool \cup (IF db.ptr = 2 THEN Range(BlockOf[FamOf(sc)]) ELSE {})
 ConflictFree == \A t, u \in Admitted : t # u =>
                    /\ TX[t].ins \cap TX[u].ins = {}
                    /\ \A k \in Keys : ~(TX[t].writes[k] # NoRd /\ TX[u].writes[k] # NoRd /\ TX[t].reads[k] = TX[u].reads[k])
@@ -450,6 +577,16 @@ Quiescent == AllDone => /\ \A k \in LockNames : lm[k] = None /\ ref[k] = 0
                         /\ rwR = {} /\ rwWait = {}
                         /\ \A u \in AllOuts : sel[u] # 0 => (res[sel[u]].c = "ok" /\ u \in res[sel[u]].outs)
                         /\ \A p \in Procs : (LockSel(p) /\ res[p].c = "ok") => \A u \in res[p].outs : sel[u] = p \/ u \in released
+(* the lock table is a function of what the submissions hold (IDEAL protocol; spec/LockTable.tla is this reading of the
+   table at the level of whole TryLock / Unlock calls, bound to the real SpinLock on its own) *)
+HeldNow(p) == IF pc[p] \in {"done", "rec_next"} THEN <<>> ELSE IF pc[p] = "unlock_key" THEN SubSeq(held[p], 1, ki[p]) ELSE held[p]
+HoldersOf(k, m) == {p \in Procs : \E i \in DOMAIN HeldNow(p) : HeldNow(p)[i].k = k /\ HeldNow(p)[i].m = m}
+TableMatchesHeld == \A k \in LockNames :
+                       LET X == HoldersOf(k, "X")
+                           S == HoldersOf(k, "S") IN
+                       /\ Cardinality(X) <= 1 /\ (X # {} => S = {})
+                       /\ lm[k] = (IF X # {} THEN "X" ELSE IF S # {} THEN "S" ELSE None)
+                       /\ ref[k] = Cardinality(S)
 TypeOK == /\ \A k \in LockNames : lm[k] \in {None, "S", "X"} /\ ref[k] \in 0..Cardinality(Procs)
           /\ rwR \subseteq Procs /\ rwWait \subseteq Procs
 (* liveness (config without state constraint): every request returns *)
@@ -457,7 +594,7 @@ Termination == <>AllDone
 (* used by the "find" configurations: stop at the first complete run whose outcome is not serialisable *)
 NotBad == ~(AllDone /\ ~OutcomeOK(sc, res, ObsOfDb(db), {}))
 
-View == <<sc, pc, ki, held, lm, ref, rwR, rwWait, sel, scan, db, res, released>>
+View == <<sc, pc, ki, held, lm, ref, rwR, rwWait, sel, scan, db, res, released, rec>>
 
 -----------------------------------------------------------------------------
 (* ---- footprints (generation only): which adjacent steps commute ----------------------------------- *)
@@ -470,7 +607,7 @@ Foot(p) ==
   LET t == T(p)
       lastKey == (pc[p] = "dotx_before_unlock" /\ held[p] = <<>>) \/ (pc[p] \in {"unlock_key", "unlock_shared_before_delete"} /\ ki[p] = 1)
       rel == IF lastKey THEN {<<"rwr", "", 0>>} ELSE {} IN
-  CASE Req(p).ty = "play" -> [NoFoot EXCEPT !.all = TRUE]
+  CASE Excl(Req(p)) -> [NoFoot EXCEPT !.all = TRUE]
     [] Req(p).ty = "sel" -> [NoFoot EXCEPT !.r = {<<"a", Req(p).a, 0>>}, !.w = {<<"sel", "", 0>>}]
     [] pc[p] = "begin" -> [NoFoot EXCEPT !.r = DbReads(t)]
     [] pc[p] = "verified" -> [NoFoot EXCEPT !.r = {<<"rww", "", 0>>}, !.a = {<<"rwr", "", 0>>}]
